@@ -40,6 +40,7 @@ def render(b, rng, split=True, docs=True, mode="lib"):
     R = Rendered()
     R.sites, R.uses, R.dead, R.decl, R.hints, R.folds, R.outline, R.docs, R.lets = {}, [], [], {}, [], [], {"main": [], "lib": []}, {}, []
     R.sigs = {}
+    R.amb, R.letsig = [], {}
     R.types = {}
     R.ambiguous_children = set()
     depth = 0
@@ -55,6 +56,9 @@ def render(b, rng, split=True, docs=True, mode="lib"):
     lead = {f: (rng.random() < 0.3) for f in ("lib", "main")}       # a file may start with a line break (then the first doc comment)
     started = set()
 
+    typed_classes = []          # (rendered name, declaration site) of the classes with template parameters declared so far
+    extra_site = [1000000]      # sites the renderer adds on its own (not part of the abstract program)
+
     def val(v):
         if v["k"] == "lit":
             emit(str(rng.choice([1, 2, 7, 42])))
@@ -62,6 +66,8 @@ def render(b, rng, split=True, docs=True, mode="lib"):
             emit(LX(v["n"]), v["site"])
             if v["k"] == "use":
                 R.uses.append((v["site"], v["tgt"], "value"))
+            elif v["k"] == "amb":
+                R.amb.append(v["site"])
             else:
                 R.dead.append((v["site"], v["n"]))
 
@@ -74,7 +80,17 @@ def render(b, rng, split=True, docs=True, mode="lib"):
                 emit(", ")
             # hint position = first character of the argument
             R.hints.append((cur, len(files[cur]), LX(a["hint"]) + ":", owner))
-            val(a)
+            if a["k"] == "lit" and typed_classes and rng.random() < 0.2:
+                # the argument is a typed bang operator whose annotation names another class with template parameters: a use of
+                # that class, no hint of its own
+                cname, csite = rng.choice(typed_classes)
+                extra_site[0] += 1
+                emit(rng.choice(["!isa<", "!isa< "]))
+                emit(cname, extra_site[0])
+                R.uses.append((extra_site[0], csite, "type-annotation"))
+                emit(">(1)")
+            else:
+                val(a)
         emit(">")
 
     def doc(site, kind):
@@ -123,6 +139,7 @@ def render(b, rng, split=True, docs=True, mode="lib"):
                     R.sigs[t["site"]] = "int %s" % LX(t["n"])
                     node["children"].append({"kind": "TemplateArgument", "name": LX(t["n"]), "site": t["site"]})
                 emit(">")
+                typed_classes.append((LX(ev["c"]), ev["site"]))
             R.sigs[ev["site"]] = "class %s%s" % (LX(ev["c"]), "<%s>" % ", ".join("int " + LX(t["n"]) for t in ev["targs"]) if ev["targs"] else "")
             if ev["parent"]:
                 emit(" : ")
@@ -170,6 +187,7 @@ def render(b, rng, split=True, docs=True, mode="lib"):
             val(ev["val"])
             emit(";\n")
             rec = next(s for s in reversed(stack) if s["kind"] in ("class", "def"))
+            R.letsig[ev["site"]] = "int %s::%s" % (rec["node"]["name"], LX(ev["f"]))
             if any(c["name"] == LX(ev["f"]) for c in rec["node"]["children"]):
                 R.ambiguous_children.add(rec["node"]["site"])      # declared and overridden in the same body: ambiguity zone
             rec["node"]["children"].append({"kind": "Field", "name": LX(ev["f"]), "site": ev["site"]})
@@ -392,6 +410,10 @@ def queries_for(R):
     for (site, n) in R.dead:
         f, s, e = R.sites[site]
         q.append({"m": "definition", "path": path(f), "off": s, "tag": ["dead", site]})
+    for site in R.amb:
+        f, s, e = R.sites[site]
+        q.append({"m": "definition", "path": path(f), "off": s, "tag": ["ambdef", site]})
+        q.append({"m": "hover", "path": path(f), "off": s, "tag": ["ambhover", site]})
     for site in R.decl:
         f, s, e = R.sites[site]
         q.append({"m": "references", "path": path(f), "off": s, "tag": ["refs", site]})
@@ -511,7 +533,8 @@ def check_c05(tier, seed):
                                                                                                       "text": R.text["main"]}, replay)
         for site, (dk, name) in R.decl.items():
             nrefs += 1
-            got = sorted(ans[("refs", site)][0] or [])
+            amb_locs = [loc(R, u) for u in R.amb]
+            got = sorted(g for g in (ans[("refs", site)][0] or []) if g not in amb_locs)     # uses in the ambiguity zone: no expectation
             exp = sorted(loc(R, u) for u in tgt_uses.get(site, []))
             if got != exp:
                 v.report("C05 references-of=%s %s" % (dk, "missing" if len(got) < len(exp) else "surplus" if len(got) > len(exp) else "different"),
@@ -619,7 +642,7 @@ def check_c19(tier, seed):
     v = Verdict("C19", tier, seed)
     wd = common.workdir("C19-%s" % tier)
     progs, rs, items, recs, states, trans = run_programs(tier, seed, wd)
-    nhover = nhint = ndoc = 0
+    nhover = nhint = ndoc = namb = 0
     for b, R, it, rec in zip(progs, rs, items, recs):
         replay = {"behaviour": b, "files": it["files"]}
         if rec.get("outcome") != "Ok":
@@ -647,6 +670,21 @@ def check_c19(tier, seed):
                 if a[1] != want:
                     v.report("C19 hover doc-comment-differs of=%s %s" % (dk, "expected-none" if want is None else ("got-none" if a[1] is None else "text")),
                              {"expected": want, "got": a[1], "decl": loc(R, tgt), "text": R.text[R.sites[tgt][0]]}, replay)
+        # uses in the ambiguity zone (a field that a let on the way overrides): wherever go-to-definition lands, hover shows that symbol
+        where = {tuple(loc(R, sx)): sx for sx in list(R.decl) + list(R.letsig)}
+        for site in R.amb:
+            d = ans[("ambdef", site)][0]
+            h = ans[("ambhover", site)][0]
+            if not d:
+                continue
+            namb += 1
+            tsite = where.get(tuple(d[0]))
+            want = R.letsig.get(tsite) or R.sigs.get(tsite)
+            if tsite is None:
+                v.report("C19 hover override-use definition-lands-on-no-declaration", {"site": loc(R, site), "definition": d, "text": R.text[R.sites[site][0]]}, replay)
+            elif h is None or h[0] != want:
+                v.report("C19 hover signature-differs of=%s" % ("field-override" if tsite in R.letsig else "field"),
+                         {"expected": want, "got": h and h[0], "definition": d, "site": loc(R, site), "text": R.text[R.sites[site][0]]}, replay)
         for f in ("main", "lib"):
             if ("inlayHint", f) not in ans:
                 continue
@@ -674,7 +712,7 @@ def check_c19(tier, seed):
         raise ToolError("vacuous: %d hovers, %d hints, %d docs" % (nhover, nhint, ndoc))
     cov = {"states": states, "transitions": trans, "traces_validated_against_impl": len(progs),
            "samples": [{"main.td": rs[i].text["main"][:600]} for i in (len(progs) // 2,)], "exhaustive": False,
-           "programs": len(progs), "hovers_compared": nhover, "doc_comments_expected": ndoc, "hints_compared": nhint,
+           "programs": len(progs), "hovers_compared": nhover, "override_uses_hover_vs_definition": namb, "doc_comments_expected": ndoc, "hints_compared": nhint,
            "explanation": "programs of Scope.tla; hover at every use and declaration site must show kind/name/declared type of the symbol the "
                           "reference resolution names, with exactly the contiguous // lines above its declaration (0..3 lines, blank-line gap or "
                           "block comment => none); inlay hints for the whole file = one per positional template argument (parameter name, at the "
